@@ -13,7 +13,7 @@ SCHEMA = "type Query { q(a: Int): String  n: Int }\n"
 QUERY = "query GetQ($a: Int) { q(a: $a) }"
 
 ERR = [{"message": "boom", "path": ["q"], "locations": [{"line": 1, "column": 2}], "extensions": {"code": "X"}, "errorType": "Vendor"},
-       {"message": "boom", "path": ["other"]}]
+       {"message": "boom", "path": ["other"]}, {"message": "explicit nulls", "locations": None, "path": None, "extensions": None}]
 # (label, status, raw body bytes or JSON value, expected outcome)
 TABLE = [
     ("ok", 200, {"data": {"q": "v"}}, "data"), ("ok-201", 201, {"data": {"q": "v"}}, "data"), ("ok-extra-keys", 200, {"data": {"q": "v"}, "extensions": {"t": 1}}, "data"),
